@@ -29,8 +29,20 @@ def scenarios(tier, seed):
     out.append(sc("elig", [tc.cell(0, 0, level=2, divvol=1e-17), tc.cell(1, far, level=2, ctype=2, divvol=1e-17, nft=1), tc.cell(2, 2 * far, level=2, divvol="inf"),
                            tc.cell(3, 3 * far, level=2, ctype=3, divvol=1e-17, nft=1)], T=1200))
     out.append(sc("remove", [tc.cell(i, i * far) for i in range(4)], [{"iter": 2, "do": "small", "cell": 3}, {"iter": 2, "do": "small", "cell": 0}, {"iter": 9, "do": "small", "cell": 2}], T=1500))
+    # several cells falling below their minimum volume in the same iteration, at neighbouring places of the population list
+    # (a removal loop that skips the element following an erased one only shows with neighbours), at its ends, and all of them
+    out.append(sc("remove_adj", [tc.cell(i, i * far) for i in range(5)], [{"iter": 2, "do": "small", "cell": 1}, {"iter": 2, "do": "small", "cell": 2},
+                                                                        {"iter": 6, "do": "small", "cell": 3}, {"iter": 6, "do": "small", "cell": 4}], T=1200))
+    out.append(sc("remove_run", [tc.cell(i, i * far) for i in range(5)], [{"iter": 1, "do": "small", "cell": c} for c in (0, 1, 2, 3)], T=800))
+    out.append(sc("remove_all", [tc.cell(i, i * far) for i in range(3)], [{"iter": 1, "do": "small", "cell": c} for c in (0, 1, 2)], T=600))
     if tier == "thorough":
         rnd = random.Random(seed)
+        for k in range(6):
+            n = rnd.randint(3, 6)
+            script = []
+            for it in sorted(rnd.sample(range(1, 8), 2)):
+                script += [{"iter": it, "do": "small", "cell": c} for c in rnd.sample(range(n), rnd.randint(1, n - 1))]
+            out.append(sc("rmrnd%d" % k, [tc.cell(i, i * far) for i in range(n)], script, T=1200, seed=seed + 50 + k))
         for k in range(16):
             cells = [tc.cell(i, i * far, level=rnd.choice([1, 2]), growth=rnd.choice([0.0, 2e-11, -2e-11, -4e-10, 3e-10]), minvol=rnd.choice([1e-19, 1.0e-16, 1.5e-16]),
                              K=rnd.choice([1e-3, 1e3, 2.5e3, 1e4]), pmax=rnd.choice(["inf", 10.0, 500.0]), p0=rnd.choice([0.0, 200.0, -200.0, 900.0]),
